@@ -255,6 +255,7 @@ var specials = map[string]func() []finding{
 	"default-post":           defaultPostRoutes,
 	"same-name-node-types":   sameNameLifecycles,
 	"same-name-slice-types":  sameNameSliceTypes,
+	"zero-value-node-lifecycle": zeroValueNodeLifecycle,
 	"bind-store-aware-hooks": bindStoreAwareHooks,
 	"bind-cyclic-values":     bindCyclicValues,
 }
@@ -693,4 +694,70 @@ func tuneOption(what string, v int) func(*flyt.BaseNode) {
 			flyt.WithBatchConcurrency(v)(b)
 		}
 	}
+}
+
+
+// lifeNode / lifeLevel are node types with value receivers; lifeNode{} and lifeLevel(0) are their types' zero values.
+type lifeNode struct{}
+type lifeLevel int
+
+var lifeCalls []string
+
+func (lifeNode) Prep(ctx context.Context, s *flyt.SharedStore) (any, error) {
+	lifeCalls = append(lifeCalls, "prep")
+	return "p", nil
+}
+func (lifeNode) Exec(ctx context.Context, p any) (any, error) {
+	lifeCalls = append(lifeCalls, fmt.Sprintf("exec:%v", p))
+	return "e", nil
+}
+func (lifeNode) Post(ctx context.Context, s *flyt.SharedStore, p, e any) (flyt.Action, error) {
+	lifeCalls = append(lifeCalls, fmt.Sprintf("post:%v/%v", p, e))
+	return "done", nil
+}
+func (l lifeLevel) Prep(ctx context.Context, s *flyt.SharedStore) (any, error) {
+	lifeCalls = append(lifeCalls, "prep")
+	return int(l), nil
+}
+func (l lifeLevel) Exec(ctx context.Context, p any) (any, error) {
+	lifeCalls = append(lifeCalls, fmt.Sprintf("exec:%v", p))
+	return "e", nil
+}
+func (l lifeLevel) Post(ctx context.Context, s *flyt.SharedStore, p, e any) (flyt.Action, error) {
+	lifeCalls = append(lifeCalls, fmt.Sprintf("post:%v/%v", p, e))
+	return "done", nil
+}
+
+// zeroValueNodeLifecycle: a node whose Go value is the zero value of its (non-pointer) type is run like any other:
+// prep once, exec with prep's value, post with both, post's action returned — on its own and as a flow's only node.
+func zeroValueNodeLifecycle() (fs []finding) {
+	zeroValMu.Lock()
+	defer zeroValMu.Unlock()
+	for _, tc := range []struct {
+		name string
+		node flyt.Node
+		want string
+	}{{"struct{}", lifeNode{}, "[prep exec:p post:p/e]"}, {"int(0)", lifeLevel(0), "[prep exec:0 post:0/e]"}, {"int(3)", lifeLevel(3), "[prep exec:3 post:3/e]"}} {
+		for _, via := range []string{"run", "flow"} {
+			lifeCalls = nil
+			var act flyt.Action
+			var err error
+			func() {
+				defer func() {
+					if p := recover(); p != nil {
+						err = fmt.Errorf("panic: %v", p)
+					}
+				}()
+				if via == "flow" {
+					act, err = flyt.Run(context.Background(), flyt.NewFlow(tc.node), flyt.NewSharedStore())
+				} else {
+					act, err = flyt.Run(context.Background(), tc.node, flyt.NewSharedStore())
+				}
+			}()
+			if got := fmt.Sprint(lifeCalls); err != nil || got != tc.want || (via == "run" && act != "done") {
+				fs = append(fs, finding{"zero-value-node-lifecycle:" + via, fmt.Sprintf("a value-type node %s (%s): callbacks %s, action %q, error %v; want %s, \"done\", nil — prep, exec and post are called for every node that is run", tc.name, via, got, act, err, tc.want)})
+			}
+		}
+	}
+	return fs
 }
